@@ -49,6 +49,12 @@ def inner_opaque(n):
   return Dec(enc=e, opts=[e, n])
 
 
+@auto_config.auto_config
+def fresh_enc():
+  """An auto_config function usable as an argument factory: every call makes new objects."""
+  return Enc(units=1, act=relu(x=2))
+
+
 class Stack:
   """A container that is falsy while empty; methods can be auto_config'd."""
 
